@@ -43,6 +43,85 @@
  */
 
 /*
+ * rfi_window: Bulirsch-Stoer rational function interpolation on one window
+ *   @xp: the m abscissae of the window
+ *   @yp: the m ordinates
+ *   @m: number of points
+ *   @cur: index of the point nearest x
+ *   @x: where to interpolate (not one of the xp)
+ *   @pole: set to true if an intermediate denominator (nearly) vanished
+ */
+static double complex rfi_window(const double *xp, const double complex *yp,
+	int m, int cur, double x, bool *pole)
+{
+    double complex y;
+    double shift = 0.0;
+    double complex c[m], d[m];
+
+    *pole = false;
+
+    /*
+     * The recurrence divides by differences built from the function
+     * values; a sample that is zero, or negligible against the others,
+     * makes it degenerate (a line through zero came back as zero).
+     * A rational function plus a constant is a rational function of
+     * the same degrees, so in that case interpolate y + shift and
+     * take the shift off the result.
+     */
+    {
+	double ymax = 0.0, ymin = INFINITY;
+
+	for (int i = 0; i < m; ++i) {
+	    double a = cabs(yp[i]);
+
+	    if (a > ymax) {
+		ymax = a;
+	    }
+	    if (a < ymin) {
+		ymin = a;
+	    }
+	}
+	if (ymin < 1.0e-6 * ymax) {
+	    shift = 2.0 * ymax;
+	}
+    }
+    for (int i = 0; i < m; ++i) {
+	c[i] = yp[i] + shift;
+	d[i] = yp[i] + shift + EPS;
+    }
+    y = yp[cur--] + shift;
+    for (int i = 0; i < m - 1; ++i) {
+	int j;
+
+	for (j = 0; j < m - i - 1; ++j) {
+	    double complex c_d = c[j + 1] - d[j];
+	    double complex dx1 = x - xp[j];
+	    double complex dx2 = x - xp[i + j + 1];
+	    double complex t1 = dx1 * d[j];
+	    double complex t2 = dx2 * c[j + 1];
+	    double complex den = t1 - t2;
+
+	    if (cabs(den) < 10.0 * EPS ||
+		    cabs(den) < 1.0e-6 * (cabs(t1) + cabs(t2))) {
+		*pole = true;
+		goto done;
+	    }
+	    c[j] = c_d * t1 / den;
+	    d[j] = c_d * t2 / den;
+	}
+	if (2 * (cur + 1) < m - i) {
+	    assert(cur + 1 >= 0 && cur + 1 < m - i);
+	    y += c[cur + 1];
+	} else {
+	    assert(cur >= 0 && cur < m - i);
+	    y += d[cur--];
+	}
+    }
+done:
+    return y - shift;
+}
+
+/*
  * _vnacal_rfi: apply rational function interpolation
  *   @xp:         vector of x points
  *   @yp:         vector of y points
@@ -59,8 +138,7 @@ double complex _vnacal_rfi(const double *xp, double complex *yp,
     int cur;
     int segment = *ip_segment;
     double complex y;
-    double shift = 0.0;
-    double complex c[m], d[m];
+    bool pole;
 
     assert(n >= 1);
     assert(m <= n);
@@ -139,61 +217,27 @@ double complex _vnacal_rfi(const double *xp, double complex *yp,
     cur = nearest - base;
     assert(base >= 0 && base <= n - m);
     assert(cur >= 0 && cur < m);
+    y = rfi_window(&xp[base], &yp[base], m, cur, x, &pole);
 
     /*
-     * The recurrence divides by differences built from the function
-     * values; a sample that is zero, or negligible against the others,
-     * makes it degenerate (a line through zero came back as zero).
-     * A rational function plus a constant is a rational function of
-     * the same degrees, so in that case interpolate y + shift and
-     * take the shift off the result.
+     * The intermediate interpolants of the recurrence have poles of
+     * their own inside the interval (k/(x-p) through two samples of
+     * opposite sign, for example) even when the final one is regular.
+     * At and right next to such a point the recurrence breaks down;
+     * the interpolant itself is smooth there, so take the mean of its
+     * values a little to either side, staying inside the segment.
      */
-    {
-	double ymax = 0.0, ymin = INFINITY;
+    if (pole) {
+	const double h = 1.0e-4 * MIN(fabs(x - xp[segment]),
+		fabs(x - xp[segment + 1]));
+	bool pole1, pole2;
+	double complex y1, y2;
 
-	for (int i = 0; i < m; ++i) {
-	    double a = cabs(yp[base + i]);
-
-	    if (a > ymax) {
-		ymax = a;
-	    }
-	    if (a < ymin) {
-		ymin = a;
-	    }
-	}
-	if (ymin < 1.0e-6 * ymax) {
-	    shift = 2.0 * ymax;
-	}
+	y1 = rfi_window(&xp[base], &yp[base], m, cur, x - h, &pole1);
+	y2 = rfi_window(&xp[base], &yp[base], m, cur, x + h, &pole2);
+	y = 0.5 * (y1 + y2);
     }
-    for (int i = 0; i < m; ++i) {
-	c[i] = yp[base + i] + shift;
-	d[i] = yp[base + i] + shift + EPS;
-    }
-    y = yp[base + cur--] + shift;
-    for (int i = 0; i < m - 1; ++i) {
-	int j;
-
-	for (j = 0; j < m - i - 1; ++j) {
-	    double complex c_d = c[j + 1] - d[j];
-	    double complex dx1 = x - xp[base + j];
-	    double complex dx2 = x - xp[base + i + j + 1];
-	    double complex den = dx1 * d[j] - dx2 * c[j + 1];
-
-	    if (cabs(den) < 10.0 * EPS) {
-		goto done;
-	    }
-	    c[j] = c_d * dx1 * d[j]     / den;
-	    d[j] = c_d * dx2 * c[j + 1] / den;
-	}
-	if (2 * (cur + 1) < m - i) {
-	    assert(cur + 1 >= 0 && cur + 1 < m - i);
-	    y += c[cur + 1];
-	} else {
-	    assert(cur >= 0 && cur < m - i);
-	    y += d[cur--];
-	}
-    }
-done:
     *ip_segment = segment;
-    return y - shift;
+    return y;
 }
+
